@@ -39,7 +39,8 @@ def run(tier, rep, work):
     hs = C.split_histories(lines)
     rep.sample([json.loads(x) for x in hs[3][1][:10]])
     rep.sample([json.loads(x) for x in hs[-1][1][:10]])
-    rep.cov["exhaustive"] = True
+    rep.cov["exhaustive"] = False
+    rep.cov["exhaustive_scope"] = "exhaustive on the model (and inductive by Apalache); real executions are seeded samples"
     rep.cov["rule"] = ("(A) TLC explores every interleaving of the micro-steps (acquire, counter initialisation, listing, close: mark / stop / release) of 3 handles with up to 2 failing initialisations; "
                        "(B) seeded sequential histories on one directory: opens (1 in 4 with a fault injected at init.counter or list.segments through the verif fault hook, i.e. after the LOCK is held), closes incl. second "
                        "closes of stale handles while another handle owns the directory, operations on open and closed handles, a second operating-system process; after every call the LOCK file, its content and the "
